@@ -10,9 +10,11 @@ import (
 	"os"
 	"os/exec"
 	"path/filepath"
+	"runtime"
 	"sort"
 	"strconv"
 	"strings"
+	"sync/atomic"
 	"time"
 
 	"pdsim/simrt"
@@ -247,10 +249,27 @@ func workerMain(p *Profile, tier string, base uint64, widx, wcount int, deadline
 	nontriv := map[uint64]bool{}
 	states := map[string]bool{}
 	start := time.Now()
+	var curRun atomic.Int64
+	var lastDone atomic.Int64
+	lastDone.Store(time.Now().UnixNano())
+	go func() {
+		// real-time watchdog (outside any bubble): a run that makes no progress is an infrastructure failure
+		for {
+			time.Sleep(5 * time.Second)
+			if time.Since(time.Unix(0, lastDone.Load())) > time.Duration(envInt("VERIF_RUN_WATCHDOG_S", 150))*time.Second {
+				buf := make([]byte, 8<<20)
+				buf = buf[:runtime.Stack(buf, true)]
+				fmt.Fprintf(os.Stderr, "pdsim: WATCHDOG: property=%s seed=%d run=%d made no progress; goroutines:\n%s\n", p.Property, base, curRun.Load(), buf)
+				os.Exit(2)
+			}
+		}
+	}()
 	for run := widx; run < maxRuns; run += wcount {
 		if time.Now().After(deadline) {
 			break
 		}
+		curRun.Store(int64(run))
+		lastDone.Store(time.Now().UnixNano())
 		o := ExecRun(p, tier, base, run, nil, false)
 		wo.Runs++
 		wo.Steps += o.Steps
